@@ -1,5 +1,445 @@
-import Garnish.Driver.Proto
+/-
+OPT / CLONE suites: the model of `optimize` / `clone_data` on the same scripts as harness/src/opts.rs.
+The driver prints the same record the harness prints (blocks, heads, mapping, raw data cells, symbol
+table, structural read-back before/after) and appends ` iso=<graphIso verdict>` per record, computed by
+the verified checker of Spec/GraphIso.lean on (data block before, data block after, root pairs).
+Extra op (driver only): `load <dump>` replaces the state by a heap dump printed by the harness
+(used to replay the pre-states of running programs).
+-/
+import Garnish.Store.BasicOptimize
+import Garnish.Spec.GraphIso
+import Garnish.Driver.ValIO
+namespace Garnish.Driver.Opt
+open Garnish Gen Garnish.Proto Garnish.BasicOpt Garnish.Driver
+
+/-! ### numbers: injective encoding of `SimpleNumber` into the opaque payload -/
+
+def encNum : Number Float → Nat
+  | .int v => 2 * (v + 2147483648).toNat
+  | .float f => 2 * f.toBits.toNat + 1
+
+def decNum (n : Nat) : Number Float :=
+  if n % 2 = 0 then .int ((n / 2 : Nat) - 2147483648) else .float (Float.ofBits (n / 2).toUInt64)
+
+def numToken (n : Nat) : String :=
+  match decNum n with
+  | .int v => s!"i{v}"
+  | .float f => s!"f{toHex16 f.toBits.toNat}"
+
+/-! ### cell tokens -/
+
+def cellToken : Cell → String
+  | .unit => "U" | .tru => "T" | .fls => "F"
+  | .type t => s!"TY:{t.name}"
+  | .number n => "N:" ++ numToken n
+  | .char c => s!"C:{c}" | .byte b => s!"B:{b}" | .symbol s => s!"S:{s}"
+  | .symbolList n => s!"SL:{n}" | .expression e => s!"E:{e}" | .external e => s!"X:{e}"
+  | .charList n => s!"CL:{n}" | .byteList n => s!"BL:{n}"
+  | .pair a b => s!"P:{a},{b}" | .range a b => s!"R:{a},{b}" | .slice a b => s!"SLC:{a},{b}"
+  | .partial_ a b => s!"PA:{a},{b}" | .list a b => s!"L:{a},{b}" | .concatenation a b => s!"CAT:{a},{b}"
+  | .custom => "CU" | .empty => "_"
+  | .uninitializedList a b => s!"UL:{a},{b}" | .listItem a => s!"LI:{a}"
+  | .associativeItem s a => s!"AI:{s},{a}"
+  | .value a b => s!"V:{a},{b}" | .valueRoot a => s!"VR:{a}"
+  | .register a b => s!"RG:{a},{b}" | .registerRoot a => s!"RR:{a}"
+  | .instructionWithData c d => s!"IWD:{c},{d}" | .instruction c => s!"I:{c}"
+  | .jumpPoint p => s!"JP:{p}"
+  | .frame a b => s!"FR:{a},{b}" | .frameIndex a => s!"FI:{a}" | .frameRegister a => s!"FG:{a}"
+  | .frameRoot => "FRT"
+  | .cloneItem a => s!"CI:{a}" | .cloneIndexMap a b => s!"CM:{a},{b}"
+
+def parseNumToken (s : String) : Option Nat :=
+  match s.toList with
+  | 'i' :: r => (String.ofList r).toInt?.map (fun v => encNum (.int v))
+  | 'f' :: r => (parseHex r).map (fun b => 2 * b + 1)
+  | _ => none
+
+def parseCellToken (tok : String) : Option Cell :=
+  match tok.splitOn ":" with
+  | ["U"] => some .unit | ["T"] => some .tru | ["F"] => some .fls | ["CU"] => some .custom
+  | ["_"] => some .empty | ["FRT"] => some .frameRoot
+  | [tag, body] =>
+    let args := (body.splitOn ",").map String.toNat?
+    match tag, args with
+    | "TY", _ => (Ty.ofName? body).map .type
+    | "N", _ => (parseNumToken body).map .number
+    | "C", [some a] => some (.char a) | "B", [some a] => some (.byte a) | "S", [some a] => some (.symbol a)
+    | "SL", [some a] => some (.symbolList a) | "E", [some a] => some (.expression a) | "X", [some a] => some (.external a)
+    | "CL", [some a] => some (.charList a) | "BL", [some a] => some (.byteList a)
+    | "P", [some a, some b] => some (.pair a b) | "R", [some a, some b] => some (.range a b)
+    | "SLC", [some a, some b] => some (.slice a b) | "PA", [some a, some b] => some (.partial_ a b)
+    | "L", [some a, some b] => some (.list a b) | "CAT", [some a, some b] => some (.concatenation a b)
+    | "UL", [some a, some b] => some (.uninitializedList a b) | "LI", [some a] => some (.listItem a)
+    | "AI", [some a, some b] => some (.associativeItem a b)
+    | "V", [some a, some b] => some (.value a b) | "VR", [some a] => some (.valueRoot a)
+    | "RG", [some a, some b] => some (.register a b) | "RR", [some a] => some (.registerRoot a)
+    | "IWD", [some a, some b] => some (.instructionWithData a b) | "I", [some a] => some (.instruction a)
+    | "JP", [some a] => some (.jumpPoint a)
+    | "FR", [some a, some b] => some (.frame a b) | "FI", [some a] => some (.frameIndex a)
+    | "FG", [some a] => some (.frameRegister a)
+    | "CI", [some a] => some (.cloneItem a) | "CM", [some a, some b] => some (.cloneIndexMap a b)
+    | _, _ => none
+  | _ => none
+
+def showOpt : Option Nat → String
+  | some v => toString v
+  | none => "-"
+
+def blockStr (b : BlockInfo) : String := s!"({b.start},{b.cursor},{b.size})"
+
+def dump (s : Store) : String :=
+  let b := blockStr s.instr ++ blockStr s.jump ++ s!"({s.instr.size + s.jump.size},{s.symtab.size},{s.symSize})"
+    ++ blockStr s.expr ++ s!"({s.start},{s.cells.size},{s.size})" ++ blockStr s.custom
+  let cells := String.intercalate " " (s.cells.toList.map cellToken)
+  let syms := String.intercalate " " (s.symtab.toList.map cellToken)
+  s!"B={b} H=v:{showOpt s.currentValue},r:{showOpt s.currentRegister},f:{showOpt s.currentFrame},ret:{s.retention} D=[{cells}] Y=[{syms}] W=0"
+
+/-! ### loading a dump -/
+
+def between (s : String) (pre post : String) : Option String :=
+  match s.splitOn pre with
+  | _ :: rest :: _ => (rest.splitOn post).head?
+  | _ => none
+
+def parseTriples (s : String) : List (Nat × Nat × Nat) :=
+  (s.splitOn "(").filterMap (fun part =>
+    match ((part.splitOn ")").headD "").splitOn "," with
+    | [a, b, c] => match a.toNat?, b.toNat?, c.toNat? with
+      | some a, some b, some c => some (a, b, c)
+      | _, _, _ => none
+    | _ => none)
+
+def parseOptNat (s : String) : Option Nat := if s = "-" then none else s.toNat?
+
+def parseCells (s : String) : Option (Array Cell) :=
+  let toks := (s.splitOn " ").filter (· ≠ "")
+  (toks.mapM parseCellToken).map List.toArray
+
+def loadDump (d : String) : Option Store :=
+  match between d "B=" " ", between d "H=" " ", between d "D=[" "]", between d "Y=[" "]" with
+  | some b, some h, some cs, some ys =>
+    match parseTriples b, h.splitOn ",", parseCells cs, parseCells ys with
+    | [(is, ic, iz), (js, jc, jz), (_, _, yz), (es, ec, ez), (ds, _, dz), (us, uc, uz)], [v, r, f, ret], some cells, some syms =>
+      let strip (x : String) : String := ((x.splitOn ":").getD 1 "")
+      some { cells := cells, size := dz, start := ds, grow := 10, symtab := syms, symSize := yz, symGrow := 10
+             instr := ⟨is, ic, iz⟩, jump := ⟨js, jc, jz⟩, expr := ⟨es, ec, ez⟩, custom := ⟨us, uc, uz⟩
+             currentValue := parseOptNat (strip v), currentRegister := parseOptNat (strip r)
+             currentFrame := parseOptNat (strip f), retention := (strip ret).toNat?.getD 0 }
+    | _, _, _, _ => none
+  | _, _, _, _ => none
+
+/-! ### building values (values::build on the Basic store, with `@k` handles) -/
+
+def handleOf (tok : String) (hs : Array Nat) : Option Nat :=
+  match tok.toList with
+  | '@' :: r => ((String.ofList r).toNat?).bind (fun k => hs[k]?)
+  | _ => none
+
+def bad {α} : Outcome α := .err .other
+
+def natArgs (ts : List Term) : Option (List Nat) :=
+  ts.mapM (fun t => match t with | .atom a => a.toNat? | _ => none)
+
+mutual
+def buildTerm (hs : Array Nat) : Term → Store → Outcome (Store × Nat)
+  | .atom a, s =>
+    if a = "U" then s.push .unit else if a = "T" then s.push .tru else if a = "F" then s.push .fls
+    else match handleOf a hs with
+      | some x => .ok (s, x)
+      | none => bad
+  | .node (.atom h :: rest), s =>
+    if h = "i" ∨ h = "f" then
+      match numOfTerm (.atom h :: rest) with
+      | some n => s.push (.number (encNum n))
+      | none => bad
+    else if h = "c" ∨ h = "b" ∨ h = "s" ∨ h = "e" ∨ h = "x" then
+      match natArgs rest with
+      | some [v] => s.push (if h = "c" then .char v else if h = "b" then .byte v else if h = "s" then .symbol v
+                            else if h = "e" then .expression v else .external v)
+      | _ => bad
+    else if h = "ty" then
+      match rest with
+      | [.atom v] => match Ty.ofName? v with
+        | some t => s.push (.type t)
+        | none => bad
+      | _ => bad
+    else if h = "cl" then
+      match natArgs rest with
+      | some cs => s.addInline (.charList cs.length) (cs.map .char)
+      | none => bad
+    else if h = "bl" then
+      match natArgs rest with
+      | some cs => s.addInline (.byteList cs.length) (cs.map .byte)
+      | none => bad
+    else if h = "p" ∨ h = "cat" ∨ h = "r" ∨ h = "sl" ∨ h = "pa" then do
+      let (s, addrs) ← buildTerms hs rest s
+      match addrs with
+      | [l, r] => s.push (if h = "p" then .pair l r else if h = "cat" then .concatenation l r
+                          else if h = "r" then .range l r else if h = "sl" then .slice l r else .partial_ l r)
+      | _ => bad
+    else if h = "l" then do
+      let (s, addrs) ← buildTerms hs rest s
+      let (s, li) ← s.startList addrs.length
+      let s ← addrs.foldlM (fun s a => s.addToList li a) s
+      s.endList li
+    else if h = "syl" then
+      match rest with
+      | t :: more@(_ :: _) => do
+        let (s, acc) ← buildTerm hs t s
+        buildSyl hs more acc s
+      | _ => bad
+    else bad
+  | .node _, _ => bad
+def buildTerms (hs : Array Nat) : List Term → Store → Outcome (Store × List Nat)
+  | [], s => .ok (s, [])
+  | t :: ts, s => do
+    let (s, a) ← buildTerm hs t s
+    let (s, as) ← buildTerms hs ts s
+    pure (s, a :: as)
+def buildSyl (hs : Array Nat) : List Term → Nat → Store → Outcome (Store × Nat)
+  | [], acc, s => .ok (s, acc)
+  | t :: ts, acc, s => do
+    let (s, a) ← buildTerm hs t s
+    let (s, acc) ← s.mergeToSymbolList acc a
+    buildSyl hs ts acc s
+end
+
+/-! ### structural read-back from the model (what values::render prints through the getters) -/
+
+def treeFuel (s : Store) : Nat := s.cells.size + 2
+
+def renderTree (t : Tree) : String :=
+  match Tree.toVal decNum t with
+  | some v => showVal v
+  | none => "<undecodable>"
+
+/-- key lookups of lists, in the order harness `render_keys` emits them -/
+def keysOf : Nat → Tree → List String
+  | 0, _ => []
+  | fuel + 1, .node lab inl kids =>
+    match lab with
+    | .pair _ _ | .concatenation _ _ | .range _ _ | .slice _ _ | .partial_ _ _ =>
+      kids.flatMap (keysOf fuel)
+    | .list n _ =>
+      let items := kids.take n
+      let targets := kids.drop n
+      let syms := items.foldl (fun acc it => match it with
+        | .node (.pair _ _) _ (.node (.symbol sy) _ _ :: _) => if acc.contains sy then acc else acc ++ [sy]
+        | _ => acc) ([] : List Nat)
+      let own := syms.map (fun sy =>
+        let v := match Store.searchAssoc inl sy with
+          | .ok (some i) => (match targets[i]? with | some t => renderTree t | none => "<err>")
+          | .ok none => "none"
+          | _ => "<err>"
+        s!"{sy}>{v}")
+      own ++ items.flatMap (keysOf fuel)
+    | _ => []
+
+def renderFull (s : Store) (a : Nat) : String :=
+  match unfold s.cells (treeFuel s) a with
+  | none => "<undecodable>"
+  | some t =>
+    let ks := keysOf (treeFuel s) t
+    if ks.isEmpty then renderTree t else renderTree t ++ " K<" ++ String.intercalate " " ks ++ ">"
+
+def renderPlain (s : Store) (a : Nat) : String :=
+  match unfold s.cells (treeFuel s) a with
+  | none => "<undecodable>"
+  | some t => renderTree t
+
+/-- values on the register chain, top first (`get_register_len` / `get_register` stop at a malformed cell) -/
+def regChain (s : Store) : Nat → Option Nat → List Nat
+  | 0, _ => []
+  | _, none => []
+  | fuel + 1, some i =>
+    match s.cells[i]? with
+    | some (.register p v) => v :: regChain s fuel (some p)
+    | some (.registerRoot v) => [v]
+    | _ => []
+
+def registers (s : Store) : String :=
+  String.intercalate ";" ((regChain s (s.cells.size + 1) s.currentRegister).reverse.map (renderFull s))
+
+def valueEntries : Nat → Store → List String
+  | 0, _ => []
+  | fuel + 1, s =>
+    match s.popValue with
+    | (s', some a) => renderFull s' a :: valueEntries fuel s'
+    | (_, none) => []
+
+def frameEntries : Nat → Store → List String
+  | 0, _ => []
+  | fuel + 1, s =>
+    match s.popFrame with
+    | .ok (s', some ret) => (s!"{ret}" ++ "{" ++ registers s' ++ "}") :: frameEntries fuel s'
+    | .ok (_, none) => []
+    | .err _ => ["<err>"]
+    | _ => ["<panic>"]
+
+/-- `get_symbol_string` -/
+def symbolString (s : Store) (sym : Nat) : String :=
+  match Store.searchAssoc s.symtab.toList sym with
+  | .ok (some i) =>
+    match s.symtab[i]? with
+    | some (.associativeItem _ di) =>
+      match s.cells[di]? with
+      | some (.charList n) =>
+        match inlineCells s.cells isChar (di + 1) n with
+        | some cs => "\"" ++ String.ofList (cs.map (fun c => Char.ofNat (charCode c))) ++ "\""
+        | none => "<panic>"
+      | _ => "<err>"
+    | _ => "<err>"
+  | .ok none => "none"
+  | .err _ => "<err>"
+  | _ => "<panic>"
+
+def dedup (xs : List Nat) : List Nat := xs.foldl (fun acc x => if acc.contains x then acc else acc ++ [x]) []
+
+def sections (s : Store) (roots : List Nat) (retention : Nat) (syms : List Nat) (handles : Option (List Nat)) : String :=
+  let fuel := s.cells.size + 1
+  let r := registers s
+  let v := String.intercalate ";" (valueEntries fuel s)
+  let f := String.intercalate ";" (frameEntries fuel s)
+  let x := String.intercalate ";" (roots.map (renderFull s))
+  let p := String.intercalate ";" ((List.range retention).filterMap (fun a =>
+    match s.cells[a]? with
+    | some c => if isValueCell c then some (s!"{a}:" ++ renderFull s a) else none
+    | none => none))
+  let y := String.intercalate ";" ((dedup syms).map (fun sy => s!"{sy}=" ++ symbolString s sy))
+  let base := s!"R=[{r}] V=[{v}] F=[{f}] X=[{x}] P=[{p}] S=[{y}]"
+  match handles with
+  | some hs => base ++ " A=[" ++ String.intercalate ";" (hs.map (renderPlain s)) ++ "]"
+  | none => base
+
+/-! ### root pairs handed to the verified checker -/
+
+def optPairs (pre post : Store) (roots mapped : List Nat) : Option (List (Nat × Nat)) := c19Pairs pre post roots mapped
+
+def isoVerdict (pre post : Store) (pairs : Option (List (Nat × Nat))) : String :=
+  match pairs with
+  | some ps => if graphIso pre.cells post.cells ps then "1" else "0"
+  | none => "0"
+
+/-! ### scripts -/
+
+structure St where
+  s : Store
+  hs : Array Nat
+  syms : List Nat
+  out : List String
+  stopped : Bool
+
+def splitOp (op : String) : String × String :=
+  match op.splitOn " " with
+  | [] => ("", "")
+  | w :: rest => (w, String.intercalate " " rest)
+
+def trimSp (s : String) : String :=
+  String.ofList ((s.toList.dropWhile (· = ' ')).reverse.dropWhile (· = ' ')).reverse
+
+/-- one op; `none` = stop the script -/
+def runOp (n : Nat) (st : St) (op : String) : Except String (St × Bool) :=
+  let (word, rest0) := splitOp op
+  let rest := trimSp rest0
+  let fail (what : String) : Except String (St × Bool) := .ok ({ st with out := st.out ++ [s!"{n}:{word} {what}"], stopped := true }, false)
+  let outcome {α} (o : Outcome α) (k : α → Except String (St × Bool)) : Except String (St × Bool) :=
+    match o with
+    | .ok a => k a
+    | .err _ => fail "err"
+    | .panic _ => fail "panic"
+    | .fuelOut => fail "fuelout"
+  match word with
+  | "add" =>
+    match Term.parse rest with
+    | none => .error "BAD-TERM"
+    | some t => outcome (buildTerm st.hs t st.s) (fun (s, a) => .ok ({ st with s := s, hs := st.hs.push a }, true))
+  | "h" => .ok ({ st with hs := st.hs.push (rest.toNat?.getD 0) }, true)
+  | "load" =>
+    match loadDump rest with
+    | some s => .ok ({ st with s := s }, true)
+    | none => .error "BAD-DUMP"
+  | "reg" | "val" =>
+    match handleOf rest st.hs with
+    | none => .error "BAD-SCRIPT handle"
+    | some a => outcome (if word = "reg" then st.s.pushRegister a else st.s.pushValue a) (fun s => .ok ({ st with s := s }, true))
+  | "setval" =>
+    match handleOf rest st.hs with
+    | none => .error "BAD-SCRIPT handle"
+    | some a => outcome (st.s.setCurrentValue a) (fun s => .ok ({ st with s := s }, true))
+  | "frame" => outcome (st.s.pushFrame (rest.toNat?.getD 0)) (fun s => .ok ({ st with s := s }, true))
+  | "popreg" => outcome st.s.popRegister (fun (s, r) =>
+      .ok ({ st with s := s, hs := match r with | some a => st.hs.push a | none => st.hs }, true))
+  | "popval" =>
+    let (s, r) := st.s.popValue
+    .ok ({ st with s := s, hs := match r with | some a => st.hs.push a | none => st.hs }, true)
+  | "popframe" => outcome st.s.popFrame (fun (s, _) => .ok ({ st with s := s }, true))
+  | "sym" =>
+    match rest.splitOn " " with
+    | [name, hash] =>
+      let sym := hash.toNat?.getD 0
+      outcome (st.s.parseAddSymbol sym (name.toList.map Char.toNat)) (fun (s, a) =>
+        .ok ({ st with s := s, hs := st.hs.push a, syms := st.syms ++ [sym] }, true))
+    | _ => .error "BAD-SCRIPT sym"
+  | "retain" =>
+    if rest.isEmpty then .ok ({ st with s := st.s.retainAll }, true)
+    else .ok ({ st with s := st.s.setRetention (rest.toNat?.getD 0) }, true)
+  | "opt" =>
+    let toks := (rest.splitOn " ").filter (· ≠ "")
+    match toks.mapM (fun t => handleOf t st.hs) with
+    | none => .error "BAD-SCRIPT handle"
+    | some roots =>
+      let retention := st.s.retention
+      let before := sections st.s roots retention st.syms none
+      outcome (st.s.optimize roots) (fun (s, mapped) =>
+        let hidx := toks.filterMap (fun t => (String.ofList (t.toList.drop 1)).toNat?)
+        let hs := (hidx.zip mapped).foldl (fun hs (h, m) => hs.setIfInBounds h m) st.hs
+        let after := sections s mapped retention st.syms none
+        let m := String.intercalate "," (mapped.map toString)
+        let iso := isoVerdict st.s s (optPairs st.s s roots mapped)
+        let rec_ := s!"{n}:opt ok M=[{m}] {dump s} BEFORE" ++ "{" ++ before ++ "} AFTER{" ++ after ++ "}" ++ s!" iso={iso}"
+        .ok ({ st with s := s, hs := hs, out := st.out ++ [rec_] }, true))
+  | "clone" =>
+    match handleOf rest st.hs with
+    | none => .error "BAD-SCRIPT handle"
+    | some a =>
+      let retention := st.s.retention
+      let shown := st.hs.toList.filter (· < st.s.cells.size)
+      let before := sections st.s [a] retention st.syms (some shown)
+      outcome (st.s.cloneData a) (fun (s, nw) =>
+        let after := sections s [a, nw] retention st.syms (some shown)
+        let pairs := optPairs st.s s [a, a] [a, nw]
+        let pairs := pairs.map (fun ps => ps ++ (st.hs.toList.filterMap (fun x => match st.s.cells[x]? with
+          | some c => if isValueCell c then some (x, x) else none
+          | none => none)))
+        let iso := isoVerdict st.s s pairs
+        let rec_ := s!"{n}:clone ok M=[{nw}] {dump s} BEFORE" ++ "{" ++ before ++ "} AFTER{" ++ after ++ "}" ++ s!" iso={iso}"
+        .ok ({ st with s := s, hs := st.hs.push nw, out := st.out ++ [rec_] }, true))
+  | w => .error s!"BAD-SCRIPT op {w}"
+
+def runScript (script : String) : String :=
+  let ops := (script.splitOn ";").map trimSp
+  let rec go : List String → Nat → St → Except String St
+    | [], _, st => .ok st
+    | op :: rest, n, st =>
+      if op.isEmpty then go rest (n + 1) st else
+      match runOp n st op with
+      | .error e => .error e
+      | .ok (st, true) => go rest (n + 1) st
+      | .ok (st, false) => .ok st
+  match go ops 0 { s := Store.fresh, hs := #[], syms := [], out := [], stopped := false } with
+  | .error e => e
+  | .ok st => String.intercalate " || " (if st.stopped then st.out else st.out ++ ["end " ++ dump st.s])
+
+end Garnish.Driver.Opt
+
 namespace Garnish.Driver
-def optCase (_f : List String) : String := "UNIMPLEMENTED"
-def cloneCase (_f : List String) : String := "UNIMPLEMENTED"
+def optCase (f : List String) : String :=
+  match f with
+  | _ :: _ :: "run" :: _ => "MODEL-N/A"
+  | [_, _, script] => Opt.runScript script
+  | _ => "BAD-CASE"
+def cloneCase (f : List String) : String :=
+  match f with
+  | [_, _, script] => Opt.runScript script
+  | _ => "BAD-CASE"
 end Garnish.Driver
